@@ -912,7 +912,7 @@ func runCase(plan casePlan, seedRnd *rand.Rand) (cs *caseState, probs []problem,
 func TestC16(t *testing.T) {
 	r := mon.Start(t, "C16")
 	defer r.Finish()
-	r.Rule("case = one Server (Concurrency 1-3/8/default, ReduceMemoryUsage on/off, initialised through Serve or ServeConn-only) serving 1-3 scripted connections (sequential or concurrent, fragmented reads, pipelined and wait-for-response requests GET/HEAD/POST) whose requests are: plain, fast under TimeoutHandler, finishing next to the timer, gated-late under TimeoutHandler/TimeoutWithCodeHandler (1-20 ms), or direct TimeoutError/WithCode/WithResponse (response body set with SetBodyString or with SetBodyRaw on a caller-owned buffer that is overwritten with markers after the call) with a gated goroutine; in 1/3 of them the handler asks for a hijack (with or without HijackSetNoResponse) before it times out, which must never be honoured; late handlers run 1-40 PRNG-chosen mutations of the abandoned ctx (38 kinds) writing markers, released at a PRNG-chosen logical event (at once … end of case); distinct = (concurrency class, options, set of kinds, methods of timed-out requests, release classes, outcomes); non-trivial = at least one request observed timed out whose late handler executed mutations")
+	r.Rule("two families. (A) case = one Server (Concurrency 1-3/8/default, ReduceMemoryUsage on/off, initialised through Serve or ServeConn-only) serving 1-3 scripted connections (sequential or concurrent, fragmented reads, pipelined and wait-for-response requests GET/HEAD/POST) whose requests are: plain, fast under TimeoutHandler, finishing next to the timer, gated-late under TimeoutHandler/TimeoutWithCodeHandler (1-20 ms), or direct TimeoutError/WithCode/WithResponse (response body set with SetBodyString or with SetBodyRaw on a caller-owned buffer that is overwritten with markers after the call) with a gated goroutine; in 1/3 of them the handler asks for a hijack (with or without HijackSetNoResponse) before it times out, which must never be honoured; late handlers run 1-40 PRNG-chosen mutations of the abandoned ctx (38 kinds) writing markers, released at a PRNG-chosen logical event (at once … end of case); distinct = (concurrency class, options, set of kinds, methods of timed-out requests, release classes, outcomes); non-trivial = at least one request observed timed out whose late handler executed mutations. (B) multi-listener case = one Server (Concurrency 1-3) behind two Serve calls on in-memory listeners: all slots are taken through listener 1 by gated handlers (k abandoned after a 1-10 ms timeout, the rest in flight), the second Serve call comes after that (1/5: before), then 1-3 wrapped requests through listener 2 / listener 1 must each get 429 and the in-flight counter must stay <= Concurrency")
 	r.Assume("h1 reference parser decides response framing; ctx.LastTimeoutErrorResponse()!=nil read on the serving goroutine right after the wrapper returned is the observation 'the timeout fired'")
 	r.Assume("a 429 is judged only when decidable without timing: required when gated late handlers hold all slots, forbidden when no more than Concurrency wrapped calls were ever started; everything else (slot released a moment after the handler returned) is counted as skipped_429_undecided")
 	r.Assume("not judged: HTTP/1.0 keep-alive header on timeout responses, Content-Length value of HEAD responses, late handlers that call TimeoutError* again or write to ctx.Conn() directly (caller misuse)")
@@ -1008,6 +1008,33 @@ func TestC16(t *testing.T) {
 			r.Violation(i, p.key, p.what, map[string]any{"plan": plan, "wires": wires})
 		}
 	})
+	// second family: one Server behind several Serve calls (see multilistener_test.go); case ids continue after n
+	m := r.N(150, 3000)
+	mon.Parallel(m, workers, func(j int) {
+		idx := n + j
+		if !r.Want(idx) {
+			return
+		}
+		p := genMLPlan(r.Rand("multilistener", j), idx)
+		probs, inc, checked := runMultiListener(p)
+		if inc != "" {
+			r.Inconclusive(fmt.Sprintf("case %d (multi-listener): %s", idx, inc))
+			return
+		}
+		r.Case(fmt.Sprintf("multilistener N=%d abandoned=%d early=%v rmu=%v extras=%v", p.N, p.Abandoned, p.EarlyServe, p.RMU, p.Extras), true)
+		r.Event("multilistener_cases", 1)
+		r.Event("multilistener_excess_requests_checked", checked)
+		seen := map[string]bool{}
+		for _, pr := range probs {
+			if !seen[pr.key] {
+				seen[pr.key] = true
+				r.Violation(idx, pr.key, pr.what, map[string]any{"plan": p})
+			}
+		}
+	})
+	if !r.Replaying() {
+		r.Require("multilistener_excess_requests_checked", m)
+	}
 	r.Require("timeouts_observed", n/2)
 	r.Require("late_steps_executed", n)
 	r.Require("responses_checked", n)
